@@ -28,6 +28,7 @@ type Job struct {
 	Tears         bool // torn unsynced tails at a crash (C14)
 	FilterSummary bool // assume/guarantee summary of the bloom filter (guarantee = C16)
 	Coins         bool // explore skiplist level coins
+	ZoneOnly      bool // crash points / schedule exploration restricted to the harness's zone
 	OnlyAsserts   []string
 	IgnorePanics  bool
 	SymIndex      bool // keep symbolic indices into scalar slices symbolic (bloom bitset)
@@ -100,6 +101,9 @@ func (r *propRun) explore(j Job) *jobResult {
 	}
 	if j.Cap == 0 {
 		j.Cap = 150 * time.Second
+		if r.tier == "thorough" {
+			j.Cap = 1500 * time.Second
+		}
 	}
 
 	var mu sync.Mutex
@@ -141,6 +145,7 @@ func (r *propRun) explore(j Job) *jobResult {
 		m.ExploreCrash = j.Fn2 != ""
 		m.MaxCrashes = j.MaxCrashes
 		m.ExploreTears = j.Tears
+		m.ZoneOnly = j.ZoneOnly
 		m.OnlyAsserts = j.OnlyAsserts
 		m.IgnorePanics = j.IgnorePanics
 		m.SymIndex = j.SymIndex
